@@ -113,11 +113,11 @@ def mk_compset(ctx, elements, tag="", va_on_interstitial=True, X=None, T=None):
     return _CompositionSet(_PhaseRecord(elements, vs), X, dof), elements, X, T, y
 
 
-def mk_callables(ctx, elements, positive=False):
+def mk_callables(ctx, elements, positive=False, tag=""):
     """mobility callables: deterministic but arbitrary functions of the degrees of freedom handed to them"""
     def mk(e):
         def f(dof):
-            m = ctx.uf("mobility_" + e, *[sc(d) for d in _np.ravel(_np.asarray(dof, dtype=object))], rng=(0.1, 2.0))
+            m = ctx.uf(tag + "mobility_" + e, *[sc(d) for d in _np.ravel(_np.asarray(dof, dtype=object))], rng=(0.1, 2.0))
             return m
         return f
     return {e: mk(e) for e in elements}
@@ -329,6 +329,86 @@ def darken(ctx, ref_first=True, via="single"):
     ctx.prove("binary interdiffusivity positive where the phase is stable (dmu_B/dx_B > 0)", ctx.implies(dmuB > 0, ctx.lt(0.0 * T, D)))
 
 
+def phase_arg(ctx, system="bin", order=(0, 1), entry="array", first_has_mobility=True, corr=False):
+    """thermodynamics object with two phases that both carry (different) mobility functions: asked for the SECOND phase
+    through the `phase` argument, the tracer diffusivities are R*T*mobility with that phase's mobility functions on that
+    phase's composition set, the interdiffusivity is built from that phase's mobility functions, and for a binary the
+    two obey the Darken relation"""
+    names = sorted(_SYSTEMS[system])
+    user = [names[i] for i in order]
+    n = len(user)
+    first, second = "FCC_A1", "BCC_A2"
+    th = object.__new__(GeneralThermodynamics)
+    th.elements = list(user) + ["VA"]; th.numElements = n; th.phases = [first, second]
+    th._diffusivity_cache = {}; th._parameters = {}; th.vacancyPoorInterstitialSublattice = {}
+    calls = {first: mk_callables(ctx, names, tag="fcc_"), second: mk_callables(ctx, names, tag="bcc_")}
+    diffs = {first: mk_callables(ctx, names, tag="fccdiff_"), second: None}
+    th.mobCallables = {first: calls[first] if first_has_mobility else None, second: calls[second]}
+    th.diffCallables = dict(diffs)
+    cf = {e: (ctx.real("corr_" + e, (0.5, 2.0)) if corr else 1) for e in th.elements}
+    if corr:
+        for e in user:
+            ctx.assume(cf[e] > 0, "correction factors are positive")
+    th.mobility_correction = dict(cf)
+    x = ctx.reals("x", n - 1, (0.05, 0.3)); T = ctx.real("T", (500.0, 1500.0))
+    for k in range(n - 1):
+        ctx.assume(x[k] > 0)
+    ctx.assume(T > 0); ctx.assume(sum(x) < 1)
+    comp = {user[0]: 1 - sum(x)}
+    for e, q in zip(user[1:], x):
+        comp[e] = q
+    if n == 2:
+        # Gibbs-Duhem by construction (as in C10.darken), A = reference, B = solute
+        iA, iB = names.index(user[0]), names.index(user[1])
+        xA, xB = comp[user[0]], comp[user[1]]
+        pAA = ctx.real("dmuA_dxA", (-2.0, 2.0)); pBA = ctx.real("dmuB_dxA", (-2.0, 2.0)); pBB = ctx.real("dmuB_dxB", (-2.0, 2.0))
+        dmuB = pBB - pBA
+        P = np.zeros((2, 2))
+        P[iA, iA], P[iA, iB], P[iB, iA], P[iB, iB] = pAA, pAA - xB * dmuB / xA, pBA, pBB
+    else:
+        P = None
+    eq, asked = {}, []
+
+    def getLocalEq(x_, T_, gExtra=0, precPhase=None, composition_sets=None):
+        ph = precPhase[0] if isinstance(precPhase, (list, tuple)) else precPhase
+        asked.append(ph)
+        if ph not in eq:       # the local equilibrium is a function of (x, T, phase)
+            cs, _, _, _, _ = mk_compset(ctx, names, tag=str(ph) + "_", X=np.array([comp[e] for e in names]), T=sc(T_))
+            eq[ph] = (_EqResult(ctx.reals("mu_" + str(ph), n, (-1.0, 1.0))), [cs])
+        return eq[ph]
+    th.getLocalEq = getLocalEq
+    xarg = x if n > 2 else x[0]
+    with hessian_stub(ctx, n, P=P) as (Pm, H):
+        if entry == "array":
+            Dt = th.getTracerDiffusivity(xarg, T, phase=second)
+            Dn = th.getInterdiffusivity(xarg, T, phase=second)
+        else:
+            Dt = th._tracerDiffusivitySingle(xarg, T, True, second)
+            Dn = th._interdiffusivitySingle(xarg, T, True, second)
+        ctx.observe("Dtracer", Dt); ctx.observe("Dn", [sc(q) for q in _np.ravel(_np.asarray(Dn, dtype=object))])
+        Dn2 = _np.asarray(Dn, dtype=object).reshape(n - 1, n - 1)
+        ctx.assume(det(Dn2) != 0, "interdiffusivity matrix non-singular (kawin inverts it on the way)")
+        ctx.prove("local equilibrium computed for the requested phase only", len(asked) >= 2 and all(a == second for a in asked))
+        cs = eq[second][1][0]
+        ms = {e: calls[second][e](cs.dof) for e in user}
+        for e in user:
+            ctx.assume(ms[e] > 0, "mobilities are positive (database)")
+        ctx.prove("one value per element", len(Dt) == n)
+        for i, e in enumerate(user):
+            ctx.prove("tracer diffusivity of the requested phase = R*T*mobility of THAT phase, user's element order",
+                      ctx.eq(Dt[i], GAS_CONSTANT * T * (cf[e] * ms[e])))
+        # interdiffusivity of the requested phase: reference formula on that phase's mobility functions
+        D, _ = chemical_diffusivity(None, cs, calls[second], mobility_correction=dict(cf), parameters={})
+    r = names.index(user[0])
+    for i, ei in enumerate(user[1:]):
+        for j, ej in enumerate(user[1:]):
+            a, b = names.index(ei), names.index(ej)
+            ctx.prove("interdiffusivity of the requested phase uses THAT phase's mobility functions", ctx.eq(Dn2[i, j], D[a, b] - D[a, r]))
+    if n == 2:
+        ctx.prove("requested phase: binary interdiffusivity is the Darken combination of its tracer diffusivities",
+                  ctx.eq(Dn2[0, 0], (xA * Dt[1] + xB * Dt[0]) * (xB / (GAS_CONSTANT * T) * dmuB)))
+
+
 def reorder(ctx, system="tern", order=(0, 1, 2), vacancy_poor=False):
     """GeneralThermodynamics._interdiffusivitySingle hands back D^n with rows/columns in the user's solute order, the
     user's first element as reference, whatever the alphabetical position of the elements"""
@@ -410,6 +490,15 @@ HARNESSES = [
     Harness("C10.darken", darken, functions=_F, stubs=_S, assumptions=_A, bounds={"components": 2},
             params={"quick": [{"ref_first": True, "via": "single"}, {"ref_first": False, "via": "single"}, {"ref_first": False, "via": "array"}],
                     "thorough": [{"ref_first": r, "via": via} for r in (True, False) for via in ("single", "array")]}),
+    Harness("C10.phase_arg", phase_arg, functions=_F, assumptions=_A, bounds={"components": "2-3", "phases": 2}, opts={"inv_hook": _inv_cut},
+            stubs=_S + ["two phases with distinct uninterpreted mobility functions (and diffusivity functions for the first phase)",
+                        "np.linalg.inv of the interdiffusivity matrix inside inverseMobility: unconstrained in the symbolic runs (product discarded)"],
+            params={"quick": [{"system": "bin", "order": [0, 1], "entry": "array"}, {"system": "bin", "order": [1, 0], "entry": "single", "corr": True},
+                              {"system": "tern", "order": [2, 0, 1], "entry": "array", "corr": True},
+                              {"system": "bin", "order": [1, 0], "entry": "array", "first_has_mobility": False}],
+                    "thorough": [{"system": s, "order": list(o), "entry": en, "first_has_mobility": fm, "corr": c}
+                                 for s, os_ in (("bin", ((0, 1), (1, 0))), ("tern", _perm3)) for o in os_ for en in ("array", "single")
+                                 for fm in (True, False) for c in (False, True)]}),
     Harness("C10.reorder", reorder, functions=_F, assumptions=_A, bounds={"components": "3-4"}, opts={"inv_hook": _inv_cut},
             stubs=_S + ["np.linalg.inv of the interdiffusivity matrix inside inverseMobility: unconstrained matrix in the symbolic runs (its product "
                         "is discarded by _interdiffusivitySingle); real inverse in concrete runs"],
